@@ -139,11 +139,17 @@ def observe_mutate(sc):
             return dec(vs[1])
         return _lookup(doc, vs[1])
 
-    def fin(tag, pre, v, has_v=True):
+    def fin(tag, pre, v, has_v=True, many=False):
         seen = set()
         g = num.dump(doc, seen)
-        r = [tag] + pre + ([num.dump(v, seen)] if has_v else [])
+        if many:
+            r = [tag] + pre + [num.dump(x, seen) for x in v]
+        else:
+            r = [tag] + pre + ([num.dump(v, seen)] if has_v else [])
         out.append({"r": r, "g": g})
+
+    fin.val = val
+    views, iters = {}, {}
 
     def err(e):
         g = num.dump(doc)
@@ -162,6 +168,7 @@ def observe_mutate(sc):
         return built[key]
 
     b.steps = cached_steps
+    env = DescrEnv(b)
     for op in sc["ops"]:
         k = op[0]
         try:
@@ -213,8 +220,231 @@ def observe_mutate(sc):
                     fin("ok", [], r)
                 elif k == "h.data":
                     fin("ok", [], m.data)
-            else:
+            elif not observe_descr_op(env, doc, op, fin, views, iters):
                 raise ValueError(f"bad op {op!r}")
         except Exception as e:  # noqa
             err(e)
     return out
+
+
+# ---------------------------------------------------------------- descriptors and list views
+
+class Box:
+    """a custom wrapped type"""
+    __slots__ = ("v",)
+
+    def __init__(self, v):
+        self.v = v
+
+
+def _unbox(x):
+    from treepath import Document
+    if isinstance(x, Box):
+        return x.v
+    if isinstance(x, Document):
+        return x.data
+    return x
+
+
+def _neg(j):
+    if isinstance(j, (int, float)) and not isinstance(j, bool):
+        return -j
+    return j
+
+
+PREDS = {
+    "truthy": lambda x: bool(x),
+    "none": lambda x: False,
+    "all": lambda x: True,
+    "is_num": lambda x: isinstance(x, (int, float)) and not isinstance(x, bool),
+    "small": lambda x: isinstance(x, (int, float)) and not isinstance(x, bool) and x < 2,
+}
+
+
+def _conv_kwargs(conv):
+    if conv == "neg":
+        return dict(to_wrapped_value=_neg, to_json_value=_neg)
+    if conv == "box":
+        return dict(to_wrapped_value=Box, to_json_value=lambda b: b.v)
+    return {}
+
+
+def _wrap_for(conv, v):
+    return Box(v) if conv == "box" else v
+
+
+class DescrEnv:
+    """builds Document subclasses for declaration chains and performs the op"""
+
+    def __init__(self, builder):
+        self.b = builder
+
+    def expr(self, p):
+        return None if p is None else self.b.steps(p)
+
+    def build(self, chain, final):
+        """final(expression_or_None) -> descriptor for the last declaration"""
+        from treepath import Document, attr_typed, attr_iter_typed
+        name, p = chain[-1][0], chain[-1][1]
+        cls = type("Leaf", (Document,), {name: final(self.expr(p))})
+        for ent in reversed(chain[:-1]):
+            name, p = ent[0], ent[1]
+            if len(ent) > 2 and ent[2] == "iter":
+                d = attr_iter_typed(cls, self.expr(p)) if p is not None else attr_iter_typed(cls)
+            else:
+                d = attr_typed(cls, self.expr(p)) if p is not None else attr_typed(cls)
+            cls = type("Outer", (Document,), {name: d})
+        return cls
+
+    def holder(self, cls, doc, chain):
+        """the instance holding the last declaration"""
+        inst = cls(doc)
+        for ent in chain[:-1]:
+            v = getattr(inst, ent[0])
+            if len(ent) > 2 and ent[2] == "iter":
+                v = list(v)[ent[3]]
+            inst = v
+        return inst
+
+
+def observe_descr_op(env, doc, op, fin, views, iters):
+    """returns True if the op was handled"""
+    from treepath import attr, attr_list_typed, attr_iter_typed, get, find, get_match, set_, set_match, Document
+    from treepath import pprop, mprop
+    k = op[0]
+    if k == "d.get":
+        chain, getter, conv = op[1], op[2], op[3]
+        g = {"get": get, "find": find, "get_match": get_match}[getter]
+        cls = env.build(chain, lambda e: attr(e, getter=g, **_conv_kwargs(conv)) if e is not None else attr(getter=g, **_conv_kwargs(conv)))
+        holder = env.holder(cls, doc, chain)
+        v = getattr(holder, chain[-1][0])
+        if getter != "get":
+            v = _unbox(v)       # the converter was applied to the iterator / Match as a whole
+        if getter == "find":
+            fin("vals", [], list(v), many=True)
+        elif getter == "get_match":
+            if v is None:
+                fin("none", [], None, False)
+            else:
+                fin("match", [v.path_as_str, v.data_name], v.data)
+        else:
+            fin("ok", [], _unbox(v))
+        return True
+    if k == "d.set":
+        chain, kind, setter, conv, vs = op[1], op[2], op[3], op[4], op[5]
+        s = {"set_": set_, "set_match": set_match}[setter]
+        if kind == "iter":
+            inner = type("El", (Document,), {})
+            cls = env.build(chain, lambda e: attr_iter_typed(inner, e) if e is not None else attr_iter_typed(inner))
+        else:
+            cls = env.build(chain, lambda e: attr(e, setter=s, **_conv_kwargs(conv)) if e is not None else attr(setter=s, **_conv_kwargs(conv)))
+        value = fin.val(vs)
+        holder = env.holder(cls, doc, chain)
+        setattr(holder, chain[-1][0], _wrap_for(conv, value))
+        fin("ok", [], None, False)
+        return True
+    if k == "d.del":
+        chain = op[1]
+        cls = env.build(chain, lambda e: attr(e) if e is not None else attr())
+        holder = env.holder(cls, doc, chain)
+        delattr(holder, chain[-1][0])
+        fin("ok", [], None, False)
+        return True
+    if k in ("pp.get", "mp.get", "pp.set"):
+        e = env.b.steps(op[1])
+
+        class Holder:
+            def __init__(self, d):
+                self._d = d
+
+            def data(self):
+                return self._d
+
+            pp = pprop(e, data)
+            mp = mprop(e, data)
+
+        hobj = Holder(doc)
+        if k == "pp.get":
+            fin("ok", [], hobj.pp)
+        elif k == "mp.get":
+            m = hobj.mp
+            if m is None:
+                fin("none", [], None, False)
+            else:
+                fin("match", [m.path_as_str, m.data_name], m.data)
+        else:
+            hobj.pp = fin.val(op[2])
+            fin("ok", [], None, False)
+        return True
+    if k == "l.new":
+        lid, chain, conv = op[1], op[2], op[3]
+        views.pop(lid, None)
+        if conv == "box":
+            el = type("El", (Document,), {})
+            cls = env.build(chain, lambda e: attr_list_typed(el, e) if e is not None else attr_list_typed(el))
+        else:
+            cls = env.build(chain, lambda e: attr_list_typed(int, e, **_conv_kwargs(conv)) if e is not None else attr_list_typed(int, **_conv_kwargs(conv)))
+        holder = env.holder(cls, doc, chain)
+        view = getattr(holder, chain[-1][0])
+        if not isinstance(view.data, list):
+            fin("notlist", [], None, False)
+        else:
+            views[lid] = (view, conv)
+            fin("view", [], None, False)
+        return True
+    if k == "l.it.new":
+        ent = views.get(op[2])
+        if ent is None:
+            fin("noview", [], None, False)
+        else:
+            iters[op[1]] = iter(ent[0])
+            fin("ok", [], None, False)
+        return True
+    if k == "l.it.next":
+        it = iters.get(op[1])
+        if it is None:
+            fin("noiter", [], None, False)
+        else:
+            fin("ok", [], _unbox(next(it)))
+        return True
+    if k.startswith("l."):
+        ent = views.get(op[1])
+        if ent is None:
+            fin("noview", [], None, False)
+            return True
+        view, conv = ent
+
+        def wrapv(v):
+            if conv == "box":
+                d = type("El", (Document,), {})
+                return d(v)
+            return v
+        if k == "l.len":
+            fin("ok", [len(view)], None, False)
+        elif k == "l.get":
+            fin("ok", [], _unbox(view[op[2]]))
+        elif k == "l.set":
+            view[op[2]] = wrapv(fin.val(op[3]))
+            fin("ok", [], None, False)
+        elif k == "l.del":
+            del view[op[2]]
+            fin("ok", [], None, False)
+        elif k == "l.in":
+            fin("ok", [wrapv(fin.val(op[2])) in view], None, False)
+        elif k == "l.append":
+            view.append(wrapv(fin.val(op[2])))
+            fin("ok", [], None, False)
+        elif k == "l.pop":
+            fin("ok", [], _unbox(view.pop(op[2])))
+        elif k == "l.iter":
+            fin("vals", [], [_unbox(x) for x in view], many=True)
+        elif k == "l.keep":
+            view.keep_all(lambda w: PREDS[op[2]](_unbox(w)))
+            fin("ok", [], None, False)
+        elif k == "l.remove":
+            view.remove_all(lambda w: PREDS[op[2]](_unbox(w)))
+            fin("ok", [], None, False)
+        else:
+            raise ValueError(f"bad list op {op!r}")
+        return True
+    return False
